@@ -162,7 +162,12 @@ def real(ctx, npairs):
     ctx.rng.shuffle(pairs)
     if ctx.tier == "quick":
         pairs = [p for p in pairs if p[0] in models.SMALL + ["zen2"]]
-    pairs = pairs[:npairs]
+    # every model at least once (first pair of each architecture), then the shuffled rest
+    firsts = {}
+    for p in pairs:
+        firsts.setdefault(p[0], p)
+    pairs = list(firsts.values()) + [p for p in pairs if p not in firsts.values()]
+    pairs = pairs[:max(npairs, len(firsts))]
     cases_outs = []
     for a, f in pairs:
         for mode in (["twice"] if ctx.tier == "quick" else ["once", "twice"]):
